@@ -13,7 +13,7 @@ use text_utils::utils::SerializeMsgPack;
 pub fn work_dir() -> PathBuf {
     let p = std::env::var("TUV_WORK")
         .map(PathBuf::from)
-        .unwrap_or_else(|_| PathBuf::from("/verif/work/adhoc"));
+        .unwrap_or_else(|_| crate::engine::verif_root().join("work").join(format!("adhoc-{}", std::process::id())));
     let _ = std::fs::create_dir_all(&p);
     p
 }
